@@ -83,7 +83,7 @@ def main():
                 r['repo_tests_pass'] = (rc == 0)
                 if rc != 0:
                     r.update(status='unrealistic', detail=out[-600:]); results.append(r); print(m['id'], 'UNREALISTIC (repo tests fail or no build)'); continue
-            env = dict(ENV, VERIF_REPO=f"{scratch}/repo", VERIF_ROOT=f"{scratch}/out")
+            env = dict(ENV, VERIF_REPO=f"{scratch}/repo", VERIF_ROOT=f"{scratch}/out", VERIF_ALT_ID=os.environ.get('VERIF_ALT_ID', ''))
             props = m['prop'] if isinstance(m['prop'], list) else [m['prop']]
             caught = []
             for p in props:
